@@ -322,6 +322,7 @@ func main() {
 
 	var cases []vlib.Case // direct cases, in order
 	var pend []pending
+	var corpusMeta [][4]string // mode, canonical, variant, props
 
 	addComputed := func(r *vlib.Rng, parentCustom, block string, tags []string) {
 		probeProps, sentinel := probeFor(r, block)
@@ -428,6 +429,12 @@ func main() {
 					addComputed(rng.Fork(), fs[1], fs[2], append(blockTags(fs[2]), "corpus"))
 				case fs[0] == "resolve" && len(fs) >= 3:
 					addResolve(fs[1], fs[2], []string{"corpus"})
+				case fs[0] == "meta" && len(fs) >= 4:
+					var props []string
+					if len(fs) >= 5 && fs[4] != "" {
+						props = strings.Split(fs[4], ",")
+					}
+					corpusMeta = append(corpusMeta, [4]string{fs[1], fs[2], fs[3], strings.Join(props, ",")})
 				}
 			}
 			fh.Close()
@@ -477,7 +484,7 @@ func main() {
 		}
 	}
 
-	nm := metaCases(rng, nMeta, func(in wIn, build func(wo wOut, status int, fatal string) []vlib.Case) {
+	nm := metaCases(rng, nMeta, corpusMeta, func(in wIn, build func(wo wOut, status int, fatal string) []vlib.Case) {
 		pend = append(pend, pending{kind: "meta", in: in, build: build})
 	})
 	_ = nm
